@@ -44,6 +44,8 @@ def dec(e):
         return tuple(dec(x) for x in e["__t"])
     if "__d" in e:
         return {k: dec(v) for k, v in e["__d"].items()}
+    if "__it" in e:
+        return (dec(x) for x in e["__it"])  # a generator: can be walked once
     raise ValueError(e)
 
 
